@@ -196,6 +196,9 @@ func checkDateTimeCore(c dCase) (site, msg string) {
 	if got := api.DateTimeText(*p); got != text {
 		return "types.DateTime.UnmarshalUT0311L0x/wrong-fields", fmt.Sprintf("date-time %s decoded as %s", text, got)
 	}
+	if want := time.Date(c.Y, time.Month(c.M), c.D, c.H, c.Mi, c.S, 0, time.Local); !time.Time(*p).Equal(want) {
+		return "types.DateTime.UnmarshalUT0311L0x/wrong-instant", fmt.Sprintf("date-time %s decoded to the instant %v; that civil time in the process zone is %v", text, time.Time(*p).UTC(), want.UTC())
+	}
 	if enc, err := p.MarshalUT0311L0x(); err != nil || !bytes.Equal(enc, wire) {
 		return "types.DateTime.MarshalUT0311L0x/re-encode", fmt.Sprintf("date-time %s encodes back to %x", text, enc)
 	}
